@@ -439,6 +439,45 @@ def r5_hard_conflict(ctx):
 THOROUGH_CONFIGS = ['net-min']
 
 
+LOG_KIND = {"Identity": "identity", "Account": "account", "Device": "device", "Files": "file", "Folder": "folder"}
+KIND_CALL = re.compile(r"^(?:\w+_)?(identity|account|device|file|folder)_log$|^(?:merge|force_merge|compare|auto_merge)_(identity|account|device|files|folder)$")
+
+
+def r7_log_kind_arms(ctx, rule_id="C04-R7"):
+    """In every `match log_type { Identity => .., Account => .., .. }` the arm
+    for one log kind only touches that kind's log / merge function: a copied
+    arm with the wrong accessor reads or writes another log of the same type."""
+    ws = ctx.ws
+    r = ctx.rule(rule_id, "each arm of a match on EventLogType uses the log accessor / merge function of its own kind",
+                 floor=40, kind="K6 arm table")
+    n = 0
+    for root, fn in sorted(ws.fns.items()):
+        if fn.crate in idioms.TEST_CRATES:
+            continue
+        for b in fn.bodies:
+            for es in cfg.enum_switches(b):
+                if es.enum != "sos_core::events::EventLogType":
+                    continue
+                for v, calls in idioms.arm_calls(b, es).items():
+                    if v not in LOG_KIND:
+                        continue
+                    idx = 0
+                    for i, t in calls:
+                        m = KIND_CALL.match(cname(t))
+                        if not m:
+                            continue
+                        kind = (m.group(1) or m.group(2)).rstrip("s")
+                        n += 1
+                        idx += 1
+                        k = "%s|%s|%s#%d" % (root, v, cname(t), idx)
+                        if kind == LOG_KIND[v]:
+                            r.ok(k, cfg.loc(b, i), "%s arm uses %s" % (v, cname(t)), work=1)
+                        else:
+                            r.violation(k, cfg.loc(b, i), "the %s arm calls %s: it reads or changes the %s log where the %s log is meant" % (v, cname(t), kind, LOG_KIND[v]), work=1)
+    if n < 40:
+        r.anchor_missing("log-kind calls inside EventLogType arms (found %d, 51 on the pinned tree)" % n)
+
+
 def run(ctx):
     ctx.explanation = (
         "Structural necessary conditions of convergence, decided over the MIR of the sync path: (R1) every function "
@@ -456,3 +495,4 @@ def run(ctx):
     r4b_conflict_reported_as_unknown(ctx)
     r5_hard_conflict(ctx)
     r6_canonical_log_order(ctx)
+    r7_log_kind_arms(ctx)
